@@ -19,6 +19,7 @@ import (
 	"github.com/specterops/dawgs/graph"
 	"github.com/specterops/dawgs/graphcache"
 	"github.com/specterops/dawgs/ops"
+	"github.com/specterops/dawgs/query"
 	"github.com/specterops/dawgs/traversal"
 	"github.com/specterops/dawgs/util/channels"
 	"github.com/specterops/dawgs/util/size"
@@ -243,10 +244,13 @@ func closureDriver(w WL, rec *recorder, e *env) traversal.Driver {
 func patternDriver(w WL, rec *recorder, e *env) traversal.Driver {
 	p := traversal.NewPattern()
 	for _, st := range w.Pattern {
+		// user criteria as callers build them: appended to a slice that keeps spare capacity
+		crit := make([]graph.Criteria, 0, 4)
+		crit = append(crit, query.KindIn(query.Relationship(), graph.StringKind("E")))
 		if st.Dir == "out" {
-			p = p.OutboundWithDepth(st.Min, st.Max)
+			p = p.OutboundWithDepth(st.Min, st.Max, crit...)
 		} else {
-			p = p.InboundWithDepth(st.Min, st.Max)
+			p = p.InboundWithDepth(st.Min, st.Max, crit...)
 		}
 	}
 	inner := p.Do(func(terminal *graph.PathSegment) error {
@@ -718,6 +722,10 @@ func TestSim(t *testing.T) {
 		Tune: func(w WL, cfg *simrt.Config) {
 			cfg.MaxSteps = 60000
 			cfg.FairSteps = 60000
+			if cfg.SiteSample == 0 {
+				// function-entry scheduling points inside package query (criteria construction)
+				cfg.SiteSample = []float64{0.05, 0.2, 0.5, 1}[cfg.Seed%4]
+			}
 			if cfg.PCTRange > 0 {
 				cfg.PCTRange *= 2
 			}
